@@ -30,7 +30,7 @@ ASSUMPTIONS = ['compare(), pool_rdm, boot_noise_ceiling/cv_noise_ceiling and Mod
                '(they belong to other properties); a numerical failure inside a fitter is not judged',
                'numpy global RNG is the only entropy source (the reproducibility replay notices any other)',
                'documented usability thresholds as in DESIGN.md Appendix C']
-BUDGET = {'quick': {'runs': 900, 'cap_s': 90, 'wall_s': 110, 'chunk': 10, 'shrink': {'runs': 120, 's': 120}},
+BUDGET = {'quick': {'runs': 1400, 'cap_s': 90, 'wall_s': 110, 'chunk': 10, 'shrink': {'runs': 120, 's': 120}},
           'thorough': {'runs': 30000, 'cap_s': 180, 'wall_s': 1500, 'chunk': 40, 'shrink': {'runs': 300, 's': 300}}}
 
 ROUTINES = [('eval_fixed', 1), ('eval_bootstrap', 3), ('eval_bootstrap_pattern', 2), ('eval_bootstrap_rdm', 2),
